@@ -29,7 +29,7 @@ type FuncResult struct {
 }
 
 func newExec(P *Prog, fn *ssa.Function) *Exec {
-	return &Exec{P: P, root: fn, notes: map[string]bool{}, loopMods: map[*ssa.BasicBlock]map[string]bool{}, immutable: map[string][]*Term{},
+	return &Exec{P: P, root: fn, notes: map[string]bool{}, written: map[string]bool{}, immutable: map[string][]*Term{},
 		oblCount: map[string]int{}, inlined: map[string]bool{}, usedCts: map[string]bool{}, unchecked: map[string]bool{}, assumes: map[string]bool{}, atomicOps: map[string]bool{}}
 }
 
@@ -56,18 +56,9 @@ func (P *Prog) runInit(pkg *ssa.Package) *initInfo {
 				ii = nil
 			}
 		}()
-		// discovery
-		ex.discover = true
 		st := newState()
 		st.now = IntLit(int64(len(P.initDone)) * 1000000)
 		fr := ex.newFrame(fn, nil, nil, st, nil)
-		fr.root = true
-		ex.run(fr, st, True)
-		ex.collectLoopMods(fr)
-		ex.discover = false
-		st = newState()
-		st.now = IntLit(int64(len(P.initDone)) * 1000000)
-		fr = ex.newFrame(fn, nil, nil, st, nil)
 		fr.root = true
 		_, out, pc := ex.run(fr, st, True)
 		ii.final, ii.pc = out, pc
@@ -87,7 +78,7 @@ func (P *Prog) runInit(pkg *ssa.Package) *initInfo {
 		base := t
 		for base.op == "store" {
 			idx := base.args[1]
-			if idx.op == "var" && strings.HasPrefix(idx.name, "obj$") {
+			if idx.op == "var" && (strings.HasPrefix(idx.name, "obj$") || strings.HasSuffix(idx.name, "$obj")) {
 				h0 := P.initialVar(name)
 				idx.AddFact(Implies(ii.pc, Eq(Select(h0, idx), Select(t, idx))))
 				P.immutable[name] = append(P.immutable[name], idx)
@@ -133,24 +124,6 @@ func (ex *Exec) constGlobalVal(gname string, t types.Type) Val {
 		ex.immutable[name] = refs
 	}
 	return unflat(t, ts)
-}
-
-func (ex *Exec) collectLoopMods(fr *Frame) {
-	for _, b := range fr.fn.Blocks {
-		if !isLoopHeader(b) {
-			continue
-		}
-		m := ex.loopMods[b]
-		if m == nil {
-			m = map[string]bool{}
-			ex.loopMods[b] = m
-		}
-		for blk := range loopBody(b) {
-			for k := range fr.bw[blk.Index] {
-				m[k] = true
-			}
-		}
-	}
 }
 
 // verifyFunction generates all obligations of fn against its contract.
@@ -207,10 +180,24 @@ func (P *Prog) verifyFunction(fn *ssa.Function, safetyTags []string) (res *FuncR
 		pc := And(wf...)
 		// preconditions
 		if ex.rct != nil {
+			ict := ex.ifaceContract()
+			if ict != nil {
+				ienv := ex.contractEnvFor(ict, fr, st, nil)
+				for _, cl := range ict.Clauses {
+					if cl.Kind == "requires" && cl.Expr != nil {
+						pc = And(pc, ex.evalBool(cl.Expr, ienv))
+					}
+				}
+			}
 			env := ex.contractEnv(fr, st, nil)
 			for _, cl := range ex.rct.Clauses {
 				if cl.Kind == "requires" && cl.Expr != nil {
-					pc = And(pc, ex.evalBool(cl.Expr, env))
+					g := ex.evalBool(cl.Expr, env)
+					if ict != nil {
+						// refinement: the implementation may not demand more than the interface grants
+						ex.addObl(fr, "refine-pre", fn.Pos(), pc, g, "interface precondition implies: "+cl.Src, ex.rct.ImplTags, cl)
+					}
+					pc = And(pc, g)
 				}
 			}
 			if len(ex.pendingAssume) > 0 {
@@ -220,18 +207,7 @@ func (P *Prog) verifyFunction(fn *ssa.Function, safetyTags []string) (res *FuncR
 		}
 		return fr, st, pc
 	}
-	// pass 1: discovery of loop-modified components
-	ex.discover = true
 	fr, st, pc := mkEntry()
-	ex.run(fr, st, pc)
-	ex.collectLoopMods(fr)
-	// pass 2
-	ex.discover = false
-	ex.obls, ex.houdini, ex.cands = nil, nil, nil
-	ex.oblCount = map[string]int{}
-	ex.notes = map[string]bool{}
-	ex.pendingAssume = nil
-	fr, st, pc = mkEntry()
 	pc0 := pc
 	_, _, outpc := ex.run(fr, st, pc)
 	// vacuity covers
@@ -260,7 +236,22 @@ func (P *Prog) verifyFunction(fn *ssa.Function, safetyTags []string) (res *FuncR
 
 // contractEnv: environment for the root function's own contract.
 func (ex *Exec) contractEnv(fr *Frame, cur *State, rets []Val) *SpecEnv {
-	ct := ex.rct
+	return ex.contractEnvFor(ex.rct, fr, cur, rets)
+}
+
+// ifaceContract: the interface-method contract the root function declares to refine.
+func (ex *Exec) ifaceContract() *Contract {
+	if ex.rct == nil || ex.rct.Implements == "" {
+		return nil
+	}
+	ict, ok := ex.P.cs.ByKey[ex.rct.Implements]
+	if !ok {
+		specFail("implements %s: no such contract", ex.rct.Implements)
+	}
+	return ict
+}
+
+func (ex *Exec) contractEnvFor(ct *Contract, fr *Frame, cur *State, rets []Val) *SpecEnv {
 	env := &SpecEnv{ex: ex, pkg: ct.Pkg, vars: map[string]specBinding{}, cur: cur, old: fr.entry, slSt: map[*SliceV]*State{}}
 	sig := fr.fn.Signature
 	args := fr.args
@@ -291,26 +282,42 @@ func (ex *Exec) checkPost(fr *Frame, ret *ssa.Return, st *State, pc *Term, vals 
 		ex.addObl(fr, "post", ret.Pos(), And(append([]*Term{pc}, extra...)...), g, cl.Src, cl.Tags, cl)
 	}
 	if ex.rct.AssignsSet {
-		ex.checkFrame(fr, ret, st, pc)
+		ex.checkFrame(ex.rct, ex.rct.AssignsTags, fr, ret, st, pc)
+	}
+	if ict := ex.ifaceContract(); ict != nil {
+		ienv := ex.contractEnvFor(ict, fr, st, vals)
+		for _, cl := range ict.Clauses {
+			if cl.Kind != "ensures" || cl.Expr == nil {
+				continue
+			}
+			g := ex.evalBool(cl.Expr, ienv)
+			extra := ex.pendingAssume
+			ex.pendingAssume = nil
+			ncl := *cl
+			ncl.Name = ""
+			ex.addObl(fr, "refine-post", ret.Pos(), And(append([]*Term{pc}, extra...)...), g, "interface postcondition: "+cl.Src, ex.rct.ImplTags, &ncl)
+		}
+		if ict.AssignsSet {
+			ex.checkFrame(ict, ex.rct.ImplTags, fr, ret, st, pc)
+		}
 	}
 }
 
 // checkFrame: every pre-existing location outside the assigns clause is unchanged.
-func (ex *Exec) checkFrame(fr *Frame, ret *ssa.Return, st *State, pc *Term) {
-	envOld := ex.contractEnv(fr, fr.entry, nil)
+func (ex *Exec) checkFrame(ct *Contract, tags []string, fr *Frame, ret *ssa.Return, st *State, pc *Term) {
+	envOld := ex.contractEnvFor(ct, fr, fr.entry, nil)
 	var locs []Loc
-	for _, a := range ex.rct.Assigns {
+	for _, a := range ct.Assigns {
 		locs = append(locs, ex.evalLocs(a, envOld)...)
 	}
-	written := map[string]bool{}
-	for _, w := range fr.bw {
-		for k := range w {
-			written[k] = true
-		}
-	}
+	written := ex.written
 	mods := map[string]bool{}
-	for _, m := range ex.rct.Modifies {
+	for _, m := range ct.Modifies {
 		mods[m] = true
+	}
+	kind := "frame"
+	if ct != ex.rct {
+		kind = "refine-frame"
 	}
 	for _, name := range sortedKeys(written) {
 		if strings.HasPrefix(name, "@") || mods[name] {
@@ -362,7 +369,7 @@ func (ex *Exec) checkFrame(fr *Frame, ret *ssa.Return, st *State, pc *Term) {
 				goal = Implies(And(pre...), Eq(Select(final, r), Select(initial, r)))
 			}
 		}
-		ex.addObl(fr, "frame", ret.Pos(), pc, goal, "only the assigns clause is modified: "+name, ex.rct.AssignsTags, &Clause{Kind: "assigns", Src: "frame " + name, Name: "frame[" + name + "]"})
+		ex.addObl(fr, kind, ret.Pos(), pc, goal, "only the assigns clause is modified: "+name, tags, &Clause{Kind: "assigns", Src: "frame " + name, Name: kind + "[" + name + "]"})
 	}
 }
 
